@@ -38,6 +38,20 @@ structure Program where
   abortRemoves : Bool                 -- abort(): `os.remove(self._lockfilename)`
   deriving Repr, DecidableEq
 
+def hasFclose (l : List (PreCall × Bool)) : Bool := l.any (fun p => p.1 == .fclose)
+
+/-- THE CHECKER (proved sound in Props/C07.lean, `check_sound`): decidable well-behavedness of a
+`_GitFile` program — exclusive create, both `_closed` guards, `_closed = True` right after the
+rename, abort() unlinks, the file object is closed before the rename. -/
+def Program.wellBehaved (P : Program) : Bool :=
+  P.openExcl && P.guardClose && P.markClosedOnReplace && P.guardAbort && P.abortRemoves
+    && hasFclose P.closePre
+
+/-- "every failure inside close() is followed by abort()": the rename and all calls before it sit
+inside the `try … finally: self.abort()` (premise of `close_failure_releases_lock`) -/
+def Program.abortsOnAnyCloseFailure (P : Program) : Bool :=
+  P.finallyAbort && P.closePre.all (fun p => p.2)
+
 /-- the program as the source says it is NOW -/
 def gitFile : Program :=
   { openExcl := Gen.Lock.openCreat && Gen.Lock.openExcl
@@ -51,6 +65,13 @@ def gitFile : Program :=
 /-- the program before dd7ffc5: `finally: self.abort()` ran with `_closed` still false after a
 successful rename -/
 def gitFileOld : Program := { gitFile with markClosedOnReplace := false }
+
+/-- the program with every call of close() that precedes the rename OUTSIDE the
+`try … finally: self.abort()` — the code as it was when finding
+F-C07-close-fault-before-rename-leaves-lock was recorded.  (Identical to `gitFile` until that
+finding is repaired; kept explicit so that the negation witness survives the repair.) -/
+def gitFilePreOutsideTry : Program :=
+  { gitFile with closePre := gitFile.closePre.map (fun p => (p.1, false)) }
 
 /-- API calls on a handle -/
 inductive Op where
